@@ -454,12 +454,12 @@ def keyed_container_probe(chk, extra, only=None, full=False):
                         o.with_more([mk_k(ns, "x", [1])], _inplace=True)
                     info = {"eager": eager, "base_dnc": list(dnc0), "class": cls.__name__, "declared": list(dnc),
                             "call": name, "nesting": "receiver, built by " + mode}
+                    n += 1
                     pre = incoherent(reach(o))
-                    if pre:
+                    if pre:     # the constructor / the in-place helpers copy the caller's values
                         report(["receiver incoherent before the call: " + pre[0]], info)
                         continue
                     del args[:]
-                    n += 1
                     try:
                         r = call(o)
                     except Exception as e:      # not this property; counted, must stay 0 on /repo
